@@ -14,7 +14,8 @@ RULE = ("replay: one generated all-module history (5 pools, 14 providers incl. a
         "rejected transactions [edit X, message that READS X, failing send] for the registry (permissions, decimals, deregister, set), the admin table, the oracle "
         "whitelist and the clp policies, each followed by a restart point of the restarted mode; directed history poolless-prefix (no pool in the first blocks, so "
         "transactions and not block hooks are the first readers; rejected [redecimal ceth, refused swap]; then the first pools; restart before every block); "
-        "conflicting bridge claims with tied power, lock/burn, dispensation create/run/claim, margin open/close/"
+        "ACCEPTED administrator edits of objects that block hooks read — a pooled denom re-registered with other decimals, swap-fee / rewards / "
+        "liquidity-protection policies, whitelist member removed and re-added — each followed by a restart point; conflicting bridge claims with tied power, lock/burn, dispensation create/run/claim, margin open/close/"
         "force-close + hook liquidations, registry/admin/bank messages; in every block 1-2 transactions that FAIL INSIDE a handler after "
         "gas-charged work, for every module: dispensation create with an empty-coins output among many recipients / without funds, "
         "run by a wrong runner, clp swap below minimum, remove/unlock more units than held, unpayable add/bucket, refused pool, "
